@@ -269,7 +269,7 @@ impl CaseKind for FwdCase {
                     Ok(a) => {
                         let exact = self.force_exact.unwrap_or(false) || (m.nodes.iter().all(|n| n.exact) && self.op.is_exact() && t.vals.iter().all(|x| is_exact_value(x.v)));
                         let mags: Vec<f64> = if self.force_exact == Some(true) { vec![0.0; t.numel()] } else { t.mags() };
-                        match diff_array(&a, &t.dims, &t.values(), &mags, exact) {
+                        match diff_array_forward(&a, &t.dims, &t.values(), &mags, exact) {
                             None => Outcome::pass(nontrivial, key, classes),
                             Some(d) if d == UNDECIDABLE => Outcome::discard(UNDECIDABLE),
                             Some(d) => {
